@@ -115,9 +115,11 @@ theorem C18_delete_refines_partial (H : Hashes) (dl : Nat) {s : State} (hi : Inv
     abs (step H dl s (.deleteObject b k)).1 = (StoreSpec.step H (abs s) (.deleteObject b k)).1 ∧
     Inv (step H dl s (.deleteObject b k)).1 := delete_refines H dl hi hg
 
-/-- delete_objects: all named objects are gone, all are reported. Partial — excluded: keys that do not exist
-    (fs:delete-objects-omits-missing-keys), repeated keys (fs:delete-objects-duplicate-key), a missing bucket
-    (fs:delete-objects-in-missing-bucket), non-canonical keys; error answers are not covered -/
+/-- delete_objects: all named objects are gone, all are reported; on a bucket that does not exist the answer is
+    `NoSuchBucket` whatever the keys (`InvalidArgument` when one is refused; 902249e, before:
+    fs:delete-objects-in-missing-bucket). Partial — excluded, when the bucket exists: keys that do not exist
+    (fs:delete-objects-omits-missing-keys), repeated keys (fs:delete-objects-duplicate-key), non-canonical keys; error
+    answers on an existing bucket are not covered -/
 theorem C18_delete_objects_refines_partial (H : Hashes) (dl : Nat) {s : State} (hi : Inv s) {b : Bytes}
     {keys : List Bytes} (hg : DeleteObjectsOk s b keys) :
     (step H dl s (.deleteObjects b keys)).2 = (StoreSpec.step H (abs s) (.deleteObjects b keys)).2 ∧
@@ -330,6 +332,8 @@ example : HeadOk (run H0 4096 {} (demo.take 3)).1 [98, 107, 98] kX := by decide
 example : GetOk (run H0 4096 {} (demo.take 3)).1 [98, 107, 98] kX := by decide
 example : CopyOk (run H0 4096 {} (demo.take 3)).1 [98, 107, 98] kX bka kDF := by decide
 example : UploadPartCopyOk (run H0 4096 {} (demo.take 23)).1 bka kX (some 1) 2 [98, 107, 98] kDE none := by decide
+/-- delete_objects on a bucket that does not exist (also with a repeated key and with a key both sides refuse) -/
+example : DeleteObjectsOk (run H0 4096 {} (demo.take 3)).1 [98, 107, 98] [kX, kX, [46, 46]] := by decide
 /-- delete_object of a key that does not exist, in an existing bucket and in a bucket that does not exist -/
 example : DeleteOk (run H0 4096 {} (demo.take 3)).1 bka kX := by decide
 example : DeleteOk (run H0 4096 {} (demo.take 3)).1 [98, 107, 98] kX := by decide
